@@ -751,6 +751,10 @@ func init() {
 				res["inputs"] = map[string]interface{}{"scenario": sc}
 				return runDriver(cc, modulePath+"/httpgrpc", fmt.Sprintf(httpStatusTextDriver, sc), res)
 			}
+			if strings.Contains(rec.o.Name, "the_final_status_does_not_wait_for_the_clients_request_body") {
+				res["inputs"] = map[string]interface{}{"scenario": "bidi handler reads one request and returns Aborted; the client has sent one message, has not called CloseSend, and calls RecvMsg; real HandleStream behind httptest, real Channel"}
+				return runDriver(cc, modulePath+"/httpgrpc", httpEarlyReturnDriver, res)
+			}
 			if !strings.Contains(rec.o.Name, "a_handlers_context_error_has_the_matching_code") {
 				res["reason"] = "no replay scenario for this obligation"
 				return res
@@ -760,6 +764,59 @@ func init() {
 		}
 	}
 }
+
+const httpEarlyReturnDriver = `package httpgrpc
+
+import (
+	"context"
+	"net/http"
+	"net/http/httptest"
+	"net/url"
+	"testing"
+	"time"
+
+	"google.golang.org/grpc"
+	"google.golang.org/grpc/codes"
+	"google.golang.org/grpc/status"
+	"google.golang.org/protobuf/types/known/emptypb"
+)
+
+// The handler of a bidi stream returns while the client's send side is still open. The
+// final status must reach the client without the client having to close its send side.
+func TestZZGovcReplay(t *testing.T) {
+	mux := http.NewServeMux()
+	mux.Handle("/svc/B", HandleStream(struct{}{}, "svc", &grpc.StreamDesc{StreamName: "B", ServerStreams: true, ClientStreams: true, Handler: func(srv interface{}, ss grpc.ServerStream) error {
+		if err := ss.RecvMsg(&emptypb.Empty{}); err != nil {
+			return err
+		}
+		return status.Error(codes.Aborted, "handler done early")
+	}}, nil))
+	svr := httptest.NewServer(mux)
+	defer svr.Close()
+	u, _ := url.Parse(svr.URL)
+	ch := &Channel{Transport: &http.Transport{}, BaseURL: u}
+	ctx, cancel := context.WithTimeout(context.Background(), 30*time.Second)
+	defer cancel()
+	cs, err := ch.NewStream(ctx, &grpc.StreamDesc{StreamName: "B", ServerStreams: true, ClientStreams: true}, "/svc/B")
+	if err != nil {
+		t.Fatalf("NewStream: %v", err)
+	}
+	if err := cs.SendMsg(&emptypb.Empty{}); err != nil {
+		t.Fatalf("SendMsg: %v", err)
+	}
+	done := make(chan error, 1)
+	go func() { done <- cs.RecvMsg(&emptypb.Empty{}) }()
+	select {
+	case err := <-done:
+		if status.Code(err) != codes.Aborted {
+			t.Errorf("GOVC-REPLAY: VIOLATED the handler returned Aborted; RecvMsg returned %v", err)
+		}
+	case <-time.After(4 * time.Second):
+		t.Errorf("GOVC-REPLAY: VIOLATED the handler returned 4 s ago (status Aborted) but the client's RecvMsg is still blocked: the final status is held back until the client closes its send side or its context ends")
+		cancel()
+	}
+}
+`
 
 const inprocHandlerEOFDriver = `package inprocgrpc
 
